@@ -126,10 +126,11 @@ def rule_order_source(ctx, crate, rule="R-MULTI-ORDER-SOURCE"):
 
 
 # arm -> (call name on ordering, required callee patterns in the position slice, forbidden, needs +1)
+LEN_OF_SEQ = r"std::vec::Vec::<T, A>::len|core::slice::<impl \[T\]>::len"
 ARMS = {
     "End": ("push", [], False),
-    "Index": ("insert", [r"std::cmp::Ord::min", r"std::vec::Vec::<T, A>::len"], False),
-    "IndexFromBack": ("insert", [r"core::num::<impl usize>::saturating_sub", r"std::vec::Vec::<T, A>::len"], False),
+    "Index": ("insert", [r"std::cmp::Ord::min|std::cmp::min|core::num::<impl usize>::min", LEN_OF_SEQ], False),
+    "IndexFromBack": ("insert", [r"core::num::<impl usize>::saturating_sub", LEN_OF_SEQ], False),
     "After": ("insert", [r"std::iter::Iterator::position"], True),
     "Before": ("insert", [r"std::iter::Iterator::position"], False),
 }
@@ -143,39 +144,43 @@ def rule_insert_arms(ctx, crate, rule="R-MULTI-INSERT-ARMS"):
     names = K.variant_names(crate, "multi::InsertLocation") or []
     ctx.check(set(names) == set(ARMS), rule, "variants", "multi::InsertLocation", K.fn_loc(b), "InsertLocation variants match the table",
               "InsertLocation variants %s differ from the rule table" % names, cfg)
-    regs = K.variant_regions(b, crate, "multi::InsertLocation")
     seen = 0
     ord_calls = [(c, k) for c, k in uses_of_field_ref(b, "ordering") if k == 0 and c.matches(r"std::vec::Vec::<T, A>::(push|insert|extend.*|append|splice|swap.*|remove|retain|truncate|clear|drain)")]
-    for vs, reg, sb, pl in regs:
-        if len(vs) != 1:
-            continue
-        v = next(iter(vs))
+    everywhere = b.reachable()
+    for v in names:
         if v not in ARMS:
+            continue
+        # what executes when the location is this variant (the arms may share one insert after the match)
+        R = K.variant_reach(b, crate, "multi::InsertLocation", v)
+        if R == everywhere:
             continue
         seen += 1
         want, pats, plus1 = ARMS[v]
-        here = [c for c, k in ord_calls if c.bb in reg]
-        loc = "%s:%d" % (b.file, here[0].line if here else b.term(sb).get("line", 0))
-        ok = len(here) == 1 and K.meth(here[0].path) == want
-        ctx.check(ok, rule, "%s:once" % v, b.name, loc, "%s arm performs exactly one ordering.%s" % (v, want),
-                  "%s arm performs %s on `ordering` (expected exactly one %s)" % (v, [K.meth(c.path) for c in here], want), cfg)
-        if not ok:
-            continue
-        c = here[0]
-        # inserted value is the freshly allocated slot
-        vsl = b.slice_args(c, [len(c.args) - 1])
-        ctx.check(vsl.has_call(r"std::vec::Vec::<T, A>::pop") and vsl.has_call(r"std::vec::Vec::<T, A>::len"), rule, "%s:value" % v, b.name, c.loc(),
-                  "the inserted value is the allocated slot (free_set.pop() or members.len()-1)", "the value inserted into `ordering` is not the allocated slot", cfg)
-        if want == "insert":
-            psl = b.slice_args(c, [1])
-            miss = [p for p in pats if not psl.has_call(p)]
-            has_plus = ("binop", "AddWithOverflow") in psl.atoms or ("binop", "Add") in psl.atoms
-            payload = any(f[0] == "multi::InsertLocation" for f in psl.fields()) or psl.has_param(2)
-            ctx.check(not miss and has_plus == plus1 and payload, rule, "%s:position" % v, b.name, c.loc(),
-                      "position computed as documented for %s" % v,
-                      "%s arm computes its position differently (%s%s%s)" % (v, "missing %s; " % miss if miss else "",
-                                                                            "unexpected +1; " if has_plus and not plus1 else ("missing +1; " if plus1 and not has_plus else ""),
-                                                                            "" if payload else "payload unused"), cfg)
+        here = [c for c, k in ord_calls if c.bb in R]
+        loc = "%s:%d" % (b.file, here[0].line if here else K.fn_loc(b).rsplit(":", 1)[-1] and b.line)
+        with b.restricted(R):
+            ok = len(here) == 1 and (K.meth(here[0].path) == want or
+                                     (want == "push" and K.meth(here[0].path) == "insert" and b.slice_args(here[0], [1]).has_call(LEN_OF_SEQ)
+                                      and not [a for a in b.slice_args(here[0], [1]).atoms if a[0] == "binop"]))
+            ctx.check(ok, rule, "%s:once" % v, b.name, loc, "%s performs exactly one ordering.%s" % (v, want),
+                      "%s arm performs %s on `ordering` (expected exactly one %s)" % (v, [K.meth(c.path) for c in here], want), cfg)
+            if not ok:
+                continue
+            c = here[0]
+            # inserted value is the freshly allocated slot
+            vsl = b.slice_args(c, [len(c.args) - 1])
+            ctx.check(vsl.has_call(r"std::vec::Vec::<T, A>::pop") and vsl.has_call(r"std::vec::Vec::<T, A>::len"), rule, "%s:value" % v, b.name, c.loc(),
+                      "the inserted value is the allocated slot (free_set.pop() or members.len()-1)", "the value inserted into `ordering` is not the allocated slot", cfg)
+            if want == "insert":
+                psl = b.slice_args(c, [1])
+                miss = [p for p in pats if not psl.has_call(p)]
+                has_plus = ("binop", "AddWithOverflow") in psl.atoms or ("binop", "Add") in psl.atoms
+                payload = any(f[0] == "multi::InsertLocation" for f in psl.fields()) or psl.has_param(2)
+                ctx.check(not miss and has_plus == plus1 and payload, rule, "%s:position" % v, b.name, c.loc(),
+                          "position computed as documented for %s" % v,
+                          "%s arm computes its position differently (%s%s%s)" % (v, "missing %s; " % miss if miss else "",
+                                                                                "unexpected +1; " if has_plus and not plus1 else ("missing +1; " if plus1 and not has_plus else ""),
+                                                                                "" if payload else "payload unused"), cfg)
     ctx.floor(rule, seen, 5, cfg, "InsertLocation arms")
     # slot allocation: reused slot is reset, fresh slot is pushed
     pops = [c for c, k in uses_of_field_ref(b, "free_set") if c.matches(r"std::vec::Vec::<T, A>::pop")]
